@@ -208,7 +208,8 @@ func (ap *accountsParser) checkForDuplicates() error {
 		ia1 := ap.initialAccounts[idx1]
 		for idx2 := idx1 + 1; idx2 < len(ap.initialAccounts); idx2++ {
 			ia2 := ap.initialAccounts[idx2]
-			if ia1.Address == ia2.Address {
+			// the same address can be written in several textual forms (e.g. lower case and upper case), so the decoded bytes are compared
+			if bytes.Equal(ia1.AddressBytes(), ia2.AddressBytes()) {
 				return fmt.Errorf("%w found for '%s'",
 					genesis.ErrDuplicateAddress,
 					ia1.Address,
